@@ -426,6 +426,10 @@ def random_spec(rng, **o):
             trows = np.sort(rng.permutation(ns)[:k]).astype(np.int64)
         s.template_feature_spike_ids = trows
         s.template_features = rng.normal(0, 1, size=(ns if trows is None else len(trows), nloc)).astype(np.float32)
+        if g('tfeat_nonfinite', 0):
+            # stored values that are NaN / inf (they are stored values like any other)
+            tf_ = s.template_features
+            tf_[rng.integers(0, tf_.shape[0], size=g('tfeat_nonfinite', 0)), rng.integers(0, tf_.shape[1], size=g('tfeat_nonfinite', 0))] = [np.nan, np.inf, -np.inf][int(rng.integers(0, 3))]
         tfi = np.stack([rng.permutation(nt)[:nloc] for _ in range(nt)]).astype(np.int64)
         if g('tfeat_pad', False) and nloc >= 2 and np.dtype(g('dtype_ind', 'int32')).kind == 'i':
             pad = rng.random(tfi.shape) < 0.3
